@@ -229,3 +229,192 @@ def witness(st):
         m = s.model()
         return {d.name(): m[d].as_long() for d in m.decls() if d.name().startswith(("nk", "tk"))}
     return {}
+
+
+# ---------------------------------------------------------------------------------------------
+# M: LuaParser::init / bump / skip_trivia / parse_trivia_tokens / parse_comments (doc parsing off)
+
+TRIVIA = ["TkShortComment", "TkLongComment", "TkEndOfLine", "TkWhitespace", "TkShebang"]
+
+
+class ParserRig:
+    def __init__(self, mc):
+        want = (r"lua_parser::<impl[^>]*>::(init|bump|skip_trivia|parse_trivia_tokens|parse_comments|peek_next_token|peek_nth_token|previous_token_range|current_token_range)\(|"
+                r"^fn is_trivia_kind|^fn lua_parser::is_invalid_kind|^fn is_invalid_kind|^fn lua_parser::is_trivia_kind")
+        self.fns = mc.fns("emmylua_parser", want)
+        self.fields = srcinfo.struct_fields(PS + "/parser/lua_parser.rs", "LuaParser")
+        self.tok = srcinfo.enum_variants(PS + "/kind/lua_token_kind.rs", "LuaTokenKind")
+        self.mark = srcinfo.enum_variants(PS + "/parser/marker.rs", "MarkEvent")
+        self.fn = {}
+        for name in ("init", "bump", "peek_next_token", "peek_nth_token", "previous_token_range", "current_token_range"):
+            c = [f for f in self.fns if re.search(r"lua_parser::<impl[^>]*>::%s$" % name, f.name)]
+            if len(c) != 1:
+                raise RuntimeError("parser fn %s: %d candidates" % (name, len(c)))
+            self.fn[name] = c[0]
+        self.queries = 0
+
+    def executor(self):
+        ex = symex.Executor(self.fns, enums={"LuaTokenKind": self.tok, "MarkEvent": self.mark}, max_visits=40, max_paths=40000)
+        vecmodel.install(ex)
+        ex.inline = [r"LuaParser::<'_>::(bump|skip_trivia|parse_trivia_tokens|parse_comments)$", r"^(lua_parser::)?is_trivia_kind$", r"^(lua_parser::)?is_invalid_kind$"]
+        ex.models.append((r"ParserConfig::<'_>::support_emmylua_doc$", lambda e, st, c, a, d, f: symex.BoolV(z3.BoolVal(False))))
+        return ex
+
+    def fresh_parser(self, st, classes):
+        """classes: per token 'T' (trivia, symbolic among the five trivia kinds) or 'X' (any non-trivia, non-eof kind, symbolic)"""
+        toks = []
+        cons = []
+        for i, c in enumerate(classes):
+            k = z3.BitVec("kind%d" % i, 16)
+            tv = [self.tok.index(n) for n in TRIVIA]
+            if c == "T":
+                cons.append(z3.Or([k == v for v in tv]))
+            else:
+                cons.append(z3.And([k != v for v in tv] + [k != self.tok.index("None"), k != self.tok.index("TkEof"), z3.ULT(k, len(self.tok))]))
+            rng = Agg("SourceRange", None, [usize(i), usize(1)], ["start_offset", "length"])
+            toks.append(Agg("LuaTokenData", None, [BV(k), rng], ["kind", "range"]))
+        vals = []
+        for f in self.fields:
+            if f == "events":
+                vals.append(VecV([]))
+            elif f == "tokens":
+                vals.append(VecV(toks))
+            elif f in ("token_index", "mark_level", "ternary_depth", "paren_depth", "ternary_paren_depth"):
+                vals.append(usize(0))
+            elif f == "current_token":
+                vals.append(BV(z3.BitVecVal(self.tok.index("None"), 16)))
+            else:
+                vals.append(Opaque(f, (f,)))
+        st.pc += cons
+        cell = st.new_cell(Agg("LuaParser", None, vals, list(self.fields)))
+        return cell
+
+    def drive(self, classes):
+        ex = self.executor()
+        st0 = symex.State()
+        cell = self.fresh_parser(st0, classes)
+        pref = Ref(("heap", cell), (), True)
+        problems = []
+        finals = []
+        npaths = 0
+        states = []
+        for p in ex.run(self.fn["init"], [pref], st0):
+            npaths += 1
+            self.collect(p, problems)
+            if p.kind == "return":
+                states.append(p.state)
+        steps = 0
+        while states and steps <= len(classes) + 1:
+            nxt = []
+            for st in states:
+                prs = st.heap[cell]
+                f = dict(zip(prs.names, prs.fields))
+                ti = vecmodel.conc(f["token_index"])
+                if ti is None:
+                    problems.append("token_index became symbolic")
+                    continue
+                if ti >= len(classes):
+                    finals.append(st)
+                    continue
+                for p in ex.run(self.fn["bump"], [pref], st.fork()):
+                    npaths += 1
+                    self.collect(p, problems)
+                    if p.kind == "return":
+                        nxt.append(p.state)
+            states = nxt
+            steps += 1
+        if states:
+            problems.append("bump() does not reach the end of the token vector within %d calls" % (len(classes) + 2))
+        self.queries += ex.queries
+        return finals, problems, npaths, cell, ex
+
+    def collect(self, p, problems):
+        for (what, cond, where, npc) in p.state.obligations:
+            if z3.is_false(z3.simplify(cond)):
+                problems.append("%s fails in %s" % (what, where.split("::")[-1]))
+        p.state.obligations = []
+        if p.kind == "cut":
+            problems.append("loop bound reached: %s" % p.info[-70:])
+        elif p.kind not in ("return",):
+            problems.append("%s: %s" % (p.kind, p.info[:100]))
+
+    def eaten(self, st, cell):
+        prs = st.heap[cell]
+        f = dict(zip(prs.names, prs.fields))
+        out = []
+        for e in f["events"].items:
+            if isinstance(e, Agg) and e.variant == "EatToken":
+                rng = e.fields[e.names.index("range")] if e.names else e.fields[1]
+                out.append(vecmodel.conc(rng.fields[0]))
+        return out
+
+
+def parser_obligations(out, mc, want_lossless, max_tokens):
+    rig = ParserRig(mc)
+    shapes_ = []
+    for n in range(0, max_tokens + 1):
+        for cl in itertools.product("TX", repeat=n):
+            shapes_.append("".join(cl))
+    if want_lossless:
+        ob = out.add(Obligation("bump/every_token_eaten_once_in_order", "M",
+                                "for every token vector of <= %d tokens (each symbolic: one of the five trivia kinds, or any other kind) with doc parsing off, init() followed by bump() "
+                                "until the end emits exactly one EatToken event per token, in order" % max_tokens,
+                                {"functions": "LuaParser::{init,bump,skip_trivia,parse_trivia_tokens,parse_comments}", "token_vectors": len(shapes_), "kinds": "symbolic per token"},
+                                [f.name for f in rig.fn.values()]))
+    else:
+        ob = out.add(Obligation("bump/no_panic_and_terminates", "M",
+                                "for every token vector of <= %d symbolic tokens: init()/bump() never index out of range and reach the end within len+1 calls; "
+                                "peek_next_token, peek_nth_token(n<=2), previous_token_range, current_token_range never index out of range at any position" % max_tokens,
+                                {"functions": "LuaParser::{init,bump,skip_trivia,parse_trivia_tokens,parse_comments,peek_*,previous_token_range,current_token_range}",
+                                 "token_vectors": len(shapes_)}, [f.name for f in rig.fn.values()]))
+    fails = []
+    npaths = 0
+    sample = None
+    t0 = time.time()
+    for cl in shapes_:
+        try:
+            finals, problems, n, cell, ex = rig.drive(cl)
+        except symex.Unsupported as e:
+            fails.append("tokens %s: encoding gap: %s" % (cl or "<empty>", str(e)[:140]))
+            continue
+        npaths += n
+        for pr in problems:
+            fails.append("tokens %s: %s" % (cl or "<empty>", pr))
+        if want_lossless:
+            for st in finals:
+                ev = rig.eaten(st, cell)
+                if ev != list(range(len(cl))):
+                    fails.append("tokens %s: EatToken events %s != tokens %s" % (cl, ev, list(range(len(cl)))))
+                    if sample is None:
+                        sample = {"classes": cl, "events": ev, "kinds": witness_kinds(st)}
+        else:
+            # the read-only accessors at every reachable parser state
+            for st in finals[:4]:
+                for name, extra in (("peek_next_token", []), ("peek_nth_token", [usize(0)]), ("peek_nth_token", [usize(2)]), ("previous_token_range", []), ("current_token_range", [])):
+                    pref = Ref(("heap", cell), (), False)
+                    for p in ex.run(rig.fn[name], [pref] + extra, st.fork()):
+                        npaths += 1
+                        pr2 = []
+                        rig.collect(p, pr2)
+                        for x in pr2:
+                            fails.append("tokens %s, %s: %s" % (cl or "<empty>", name, x))
+    ob.witness = npaths > 0
+    ob.extra = {"token_vectors": len(shapes_), "paths": npaths, "seconds": round(time.time() - t0, 1), "feasibility_queries": rig.queries}
+    if sample:
+        ob.extra["counterexample"] = sample
+    if fails:
+        ob.status = "pending"
+        ob.detail = "; ".join(sorted(set(fails))[:6])[:700]
+        return [(ob, fails, sample)]
+    ob.status = "pass"
+    return []
+
+
+def witness_kinds(st):
+    s = z3.Solver()
+    for c in st.pc:
+        s.add(c)
+    if s.check() == z3.sat:
+        m = s.model()
+        return {d.name(): m[d].as_long() for d in m.decls() if d.name().startswith("kind")}
+    return {}
